@@ -137,7 +137,10 @@ func vFileContent(name, content string) {
 	if err := os.WriteFile(name, []byte(content), 0o600); err != nil {
 		panic(err)
 	}
+	vTempFiles = append(vTempFiles, name)
 }
+
+var vTempFiles []string
 
 func vReplayRun(table map[string]func()) {
 	path := os.Getenv("SYMGO_CASE")
@@ -155,6 +158,11 @@ func vReplayRun(table map[string]func()) {
 		fmt.Println("SYMGO-ERROR unknown harness", vCur.Harness)
 		return
 	}
+	defer func() {
+		for _, n := range vTempFiles { // files created for the file content model
+			os.Remove(n)
+		}
+	}()
 	defer func() {
 		if r := recover(); r != nil {
 			if _, isA := r.(vAssumeFailed); isA {
